@@ -66,6 +66,14 @@ PROPS = {
         'level_text': 'Theorem scan_spec: Bounds(Pruning(Merging[children])) over children behaving as sorted tables shows, under every finite program of seek_to_first/seek_to_last/seek/next/prev, the reference cursor over the versions that are newest <= t for their key, not tombstones, and in range; scan_depends_only_on_versions: unchanged by flush, moves and non-GC compaction. The right-hand side is computed by the model driver from every dumped state of seeded store histories and compared with KeyValueStore::range_scan for seeded bounds and programs; the oracle compares with the sequential map and with point reads.',
         'level_note': 'Trusted: Lean kernel; axioms propext, Classical.choice, Quot.sound; single-step hooks; dumps via the implementation\'s cursors. The children-are-tables hypotheses are discharged by other theorems/checks, not here. D-1 repaired; D-9 known finding shared with C01.',
     },
+    'C04': {
+        'trusted': [STEP, 'CRC-32C of the crc32c crate when the harness writes tampered fragment copies', 'a file\'s setsum = setsum of its stored entries is checked per file by the harness (sst::Setsum over a full cursor walk), not a theorem here'],
+        'assumptions': [STEP, 'hash assumption for the rejection half: a changed entry changes the file setsum (h(e) != 0, h(e) != h(e\')); entry framing is not injective (DESIGN C14 note)',
+                        'reopen on a state with key- and timestamp-overlapping files is known finding D-9 (C01)'],
+        'partial': ['tamper_detected is stated per altered digest (output, discard) and per altered file setsum (tamper_file_rejected); single-entry tampers of SST contents are covered for GC edits by the real verify_gc only through the LsmVerifier passes, not by a separate stream'],
+        'level_text': 'Theorems over any commutative group, instantiated with the canonical setsum values (setsumGrp, proved a group): every store transaction balances (tx_balances), the verifier\'s chain/balance/discard pass accepts every chain of store-written transactions and the last output is the sum over the live files (verifier_accepts), one altered digest or one altered file setsum is rejected (tamper_*). The driver runs Blue.Books.verify over setsumGrp on the records of every fragment the real store writes (and on tampered copies) and compares with the real ManifestVerifier; the oracle checks manifest O = sum of listed SST setsums = setsums recomputed from stored entries, and that LsmVerifier passes on the quiescent store return ok.',
+        'level_note': 'Trusted: Lean kernel; axioms propext, Classical.choice, Quot.sound; single-step hooks; CRC-32C crate for tampered copies; setsum-of-contents per file checked not proved; collision resistance assumed for the rejection half.',
+    },
     'C14': {
         'post': c14_post,
         'trusted': [HASH],
